@@ -22,9 +22,17 @@ def gen_stream(rng, tid, scope, before_start=None, shift=0):
     so that any permutation is visible."""
     uid = [0]
 
+    # three streams in ten consist mostly of events without any payload (12 bytes, indistinguishable but
+    # for their clock), with an event of another size now and then
+    lean = rng.random() < 0.3
+
     def body(clock):
         uid[0] += 1
         k = rng.random()
+        if lean and k < 0.88:
+            return [clock, "OB.", b"", False]
+        if lean:
+            k = (k - 0.88) / 0.12
         if k < 0.6:
             return [clock, "OM=", obs.i64(uid[0]) + obs.i32(9), False]
         if k < 0.85:
@@ -39,6 +47,12 @@ def gen_stream(rng, tid, scope, before_start=None, shift=0):
     before_start = scope != "fail" and (draw if before_start is None else before_start)
     nbase = rng.choice([5, 30, 200, 1500])
     nreg = rng.randint(1, 8)
+    # lean streams are often short and full of regions that reach far back, over earlier regions and
+    # over the few events of another size
+    dense = lean and rng.random() < 0.7
+    if dense:
+        nbase = rng.choice([8, 12, 20, 30])
+        nreg = rng.randint(4, 8)
     reg_at = sorted(rng.sample(range(1, nbase + 1), min(nreg, nbase)))
     tail_region = scope == "fail" and rng.random() < 0.5
     if tail_region:
@@ -60,6 +74,9 @@ def gen_stream(rng, tid, scope, before_start=None, shift=0):
             nin = rng.choice([0, 1, 2, 5, rng.randint(0, 20)])
             if scope == "fail":
                 d = len(evs) - 2     # all the way back, just after OHx
+            elif dense:
+                d = rng.randint(0, len(evs) - 2)
+                nin = nin or rng.randint(1, 3)
             else:
                 d = rng.randint(0, min(len(evs) - 2, rng.choice([1, 5, 50, 2000])))
             anchor = evs[len(evs) - 1 - d][0] if d > 0 else clock
